@@ -2,6 +2,7 @@ package h
 
 import (
 	"bytes"
+	"crypto/x509"
 	"encoding/json"
 	"encoding/pem"
 	"fmt"
@@ -294,7 +295,15 @@ func c04Run(r *core.Run) {
 			}
 			id := pki[identName]
 			if id.Issuer != nil {
-				if roles, ok := caRoles[id.Issuer.Name]; ok && id.Cert.NotAfter.After(time.Now()) {
+				// a *client* certificate of that CA: one that is valid now and whose
+				// stated purposes, if it states any, include client authentication
+				clientPurpose := len(id.Cert.ExtKeyUsage) == 0
+				for _, u := range id.Cert.ExtKeyUsage {
+					if u == x509.ExtKeyUsageClientAuth || u == x509.ExtKeyUsageAny {
+						clientPurpose = true
+					}
+				}
+				if roles, ok := caRoles[id.Issuer.Name]; ok && id.Cert.NotAfter.After(time.Now()) && clientPurpose {
 					return c04Caller{Known: true, Name: "ca1-people", Roles: roles}
 				}
 			}
@@ -303,7 +312,10 @@ func c04Run(r *core.Run) {
 
 		keyNames := []string{"k1", "k2", "k3", "a1", "a2", "a3", "a4", "kt", "nosuchkey"}
 		identNames := []string{"client-fp-1", "client-fp-2", "client-unknown-1", "ca-1-client-a", "ca-1-client-expired", "ca-2-client-a",
-			"ca-1-client-a", "ca-1-client-a-self", "ca-1-client-a-otherca", "ca-1-client-a-lapsed", "public-client", ""}
+			"ca-1-client-a", "ca-1-client-a-self", "ca-1-client-a-otherca", "ca-1-client-a-lapsed", "public-client", "ca-1-server-only", ""}
+		// ("ca-1-server-only": issued by a configured client CA, but for another
+		// purpose - a server certificate without the client-authentication usage;
+		// it is not "a client certificate" of that CA)
 		// ("public-client": a certificate with the client-authentication usage that
 		// chains to a root of the operating system's trust store, which no
 		// configuration here mentions)
@@ -539,7 +551,17 @@ func c04Run(r *core.Run) {
 					if len(touched) > 0 && (q.BadParam == "nokey" || !entitled) {
 						r.Failf("C04.touched-before-refusal", "bad-request", "token touched (%v): %s", touched, desc)
 					}
-				case malformed || undefined:
+				case undefined:
+					// a well-formed request naming a key the configuration does not
+					// define is one of "every other request": refused with 401/403
+					if resp.Code != 401 && resp.Code != 403 {
+						r.Failf("C04.undefined-key-not-refused", q.Endpoint, "key name is not defined in the configuration: the request must be refused with 401/403 but got %d: %s", resp.Code, desc)
+					}
+					if len(touched) > 0 {
+						r.Failf("C04.touched-before-refusal", kclass, "token touched (%v) for an undefined key name: %s", touched, desc)
+					}
+					r.Probe("undefined-key-requested")
+				case malformed:
 					if ok2xx {
 						r.Failf("C04.malformed-entry-served", kclass, "key name resolves to a malformed or missing entry but the request was served: %s", desc)
 					}
